@@ -318,6 +318,16 @@ pub extern "sysv64" fn memory_write_word(areas: *mut MemoryAreas, addr: u16, val
   memory_write_byte(areas, addr.wrapping_add(1), high);
 }
 
+/// Store a word the way PUSH / CALL / RST do: the high byte is written first, at
+/// addr + 1, then the low byte at addr.
+#[inline(never)]
+pub extern "sysv64" fn memory_push_word(areas: *mut MemoryAreas, addr: u16, value: u16) {
+  let low = (value & 0xff) as u8;
+  let high = (value >> 8) as u8;
+  memory_write_byte(areas, addr.wrapping_add(1), high);
+  memory_write_byte(areas, addr, low);
+}
+
 #[inline(never)]
 pub extern "sysv64" fn memory_read_word(areas: *mut MemoryAreas, addr: u16) -> u16 {
   let low = memory_read_byte(areas, addr) as u16;
